@@ -208,10 +208,13 @@ func (r report) String() string {
 	return fmt.Sprintf("%s at %s frames[%s]", r.Cond, pos, strings.Join(fs, " "))
 }
 
-func runReal(src string, tro bool) report {
+func runReal(src string, tro bool, files map[string]string) report {
 	env := el.MustEnv(el.Opts{})
 	if !tro {
 		env.Runtime.Debugger = el.Dormant{}
+	}
+	if files != nil {
+		env.Runtime.Library = mapLibrary(files)
 	}
 	v := env.LoadString("prog.lisp", src)
 	var r report
@@ -238,11 +241,12 @@ func runReal(src string, tro bool) report {
 	return r
 }
 
-func runRef(src string) (report, bool) {
+func runRef(src string, files map[string]string) (report, bool) {
 	in := ri.New()
+	lm := defLoadModel(in, files) // rejected.go: load-string / load-bytes / load-file / to-bytes
 	_, e, perr := in.Load(src)
 	var r report
-	if perr != nil || in.OutOfFuel {
+	if perr != nil || in.OutOfFuel || lm.unspecified {
 		return r, false
 	}
 	if e == nil {
@@ -310,16 +314,18 @@ type kase struct {
 	Layout    int    `json:"layout"`
 	Recursive bool   `json:"recursive"`
 	SetBang   bool   `json:"set_bang"`
+	// Files is the source library of the runtime (load-file); nil = no library configured
+	Files map[string]string `json:"files,omitempty"`
 }
 
 // judge returns "" or a class + detail.
 func judge(k kase) (string, string) {
-	ref, ok := runRef(k.Src)
+	ref, ok := runRef(k.Src, k.Files)
 	if !ok {
 		return "", ""
 	}
-	off := runReal(k.Src, false)
-	on := runReal(k.Src, true)
+	off := runReal(k.Src, false, k.Files)
+	on := runReal(k.Src, true, k.Files)
 	detail := fmt.Sprintf("reference:        %s\nelps (TRO off):   %s\nelps (TRO on):    %s", ref, off, on)
 	if ref.IsErr != off.IsErr || ref.IsErr != on.IsErr {
 		return "error-vs-value", detail
@@ -389,7 +395,13 @@ func count(fs []frame, name string) int {
 }
 
 func build(leafIdx int, ctxIdx []int, mode int) (kase, bool) {
-	l := leaves[leafIdx]
+	if leafIdx >= len(leaves) { // the product runs over leaves followed by loadLeaves (rejected.go)
+		return buildLeaf(loadLeaves[leafIdx-len(leaves)], loadFiles, ctxIdx, mode)
+	}
+	return buildLeaf(leaves[leafIdx], nil, ctxIdx, mode)
+}
+
+func buildLeaf(l leaf, files map[string]string, ctxIdx []int, mode int) (kase, bool) {
 	expr := l.src
 	var names []string
 	for _, ci := range ctxIdx { // innermost first
@@ -401,7 +413,7 @@ func build(leafIdx int, ctxIdx []int, mode int) (kase, bool) {
 	if err != nil {
 		return kase{}, false
 	}
-	return kase{Src: layout(forms, mode), Leaf: l.id, Ctx: strings.Join(names, "<"), Layout: mode, Recursive: l.recursive, SetBang: l.id == "set!-unbound"}, true
+	return kase{Src: layout(forms, mode), Leaf: l.id, Ctx: strings.Join(names, "<"), Layout: mode, Recursive: l.recursive, SetBang: l.id == "set!-unbound", Files: files}, true
 }
 
 func run(r *core.Run) {
@@ -410,7 +422,8 @@ func run(r *core.Run) {
 		depth = 3
 	}
 	r.Bound("context_depth", depth)
-	r.Bound("error_kinds", len(leaves))
+	nLeaves := len(leaves) + len(loadLeaves)
+	r.Bound("error_kinds", nLeaves)
 	r.Bound("contexts", len(contexts))
 	r.Bound("layouts", 3)
 	r.Rule("every error kind (unbound symbol, package-qualified unbound symbol as a value and as an operator, symbol of an unknown package, an unbound symbol handed as a function designator to funcall / apply / map / foldl, a binding form rejecting a name at bind time after its value forms ran (let / let* / flet / dotimes), (error ..), builtin type error, wrong arity, error inside a called function, a failing form written in a macro template, a failing form a macro built with list, set! of an unbound name, non-tail and tail recursion ending in an error) at every position of every nesting up to the depth bound of 31 contexts (argument positions, let/let* value and body, if test/branches, cond test/body, progn, lambda call, funcall, apply, map callback, labels, flet, handler-bind body, inside a handler, dotimes, thread-first, thunk, macro template argument, macro built argument, rethrown), each in 3 source layouts; plus every error kind x every context loaded from lisp through load-string / load-bytes (bare and under a rethrowing handler, elimination on and off) against the same source loaded by the host; plus every error kind x every context with the definitions and the failing expression in two differently named sources of one runtime (the library as one source, and as one source per form so that every source starts at the same position), against the same text loaded as one source. Non-trivial = the program fails; distinct by source text")
@@ -428,13 +441,13 @@ func run(r *core.Run) {
 		}
 	}
 	rec(nil)
-	total := int64(len(leaves) * len(seqs) * 3)
+	total := int64(nLeaves * len(seqs) * 3)
 	r.Bound("programs", total)
 	core.ParallelRange(r, total, nil, func(_ struct{}, i int64) {
 		mode := int(i % 3)
 		rest := i / 3
-		li := int(rest % int64(len(leaves)))
-		si := rest / int64(len(leaves))
+		li := int(rest % int64(nLeaves))
+		si := rest / int64(nLeaves)
 		k, ok := build(li, seqs[si], mode)
 		if !ok {
 			return
@@ -468,9 +481,11 @@ func run(r *core.Run) {
 		}
 		r.Violate("c18", full, k, "location = the blamed form, trace = the active calls", detail, "")
 	})
-	r.AddStates(int64(len(seqs) * len(leaves)))
+	r.AddStates(int64(len(seqs) * nLeaves))
 	nestedLoads(r)
 	multiSources(r)
+	rejectedLoads(r)
+	hostHistories(r)
 }
 
 func ifs(c bool, a, b string) string {
@@ -487,6 +502,14 @@ func replay(v core.Violation) (bool, string) {
 			return false, err.Error()
 		}
 		cls, detail := multiJudge(mk)
+		return cls != "", detail
+	}
+	if strings.HasPrefix(v.Class, "host-history:") {
+		hk, err := core.CaseOf[historyKase](v)
+		if err != nil {
+			return false, err.Error()
+		}
+		cls, detail := historyJudge(hk)
 		return cls != "", detail
 	}
 	if strings.HasPrefix(v.Class, "nested-load:") {
